@@ -23,6 +23,14 @@ theorem computeFingerprintFull_eq (hs : List Int) : computeFingerprintFullT FP.P
   funext t x
   exact computeStep_eq t x
 
+/-- a `Table` runs the same loop over its columns' fingerprints with its own base `Table._FP_B` -/
+theorem computeFingerprintFull_table_eq (fps : List Int) : computeFingerprintFullT FP.P FP.BT fps = FP.fpComb fps := by
+  unfold computeFingerprintFullT FP.fpComb FP.H FP.ev
+  congr 1
+  funext t x
+  simp only [computeFingerprintFullStepT, FP.roll]
+  exact Int.fmod_eq_emod_of_nonneg _ P_nonneg
+
 /-- nested sequences are hashed with the same rolling hash (why a table's fingerprint is `Htab`) -/
 theorem hashSequence_eq (hs : List Int) : hashSequenceT FP.P FP.B hs = FP.fpVec hs := by
   unfold hashSequenceT FP.fpVec FP.H FP.ev
